@@ -384,7 +384,7 @@ def main():
             emit_opt_list(nm, env[nm])
         emit_opt_lists("add_lists", in_lists(find_func(ct, "add", "Circuit")), 2)
         emit_opt_lists("connect_lists", in_lists(find_func(ct, "connect", "Circuit")), 4)
-        emit_opt_lists("remove_unloaded_lists", in_lists(find_func(ct, "remove_unloaded", "Circuit")), 2)
+        emit_opt_lists("remove_unloaded_lists", in_lists(find_func(ct, "remove_unloaded", "Circuit")), 3)
         emit_opt_lists("set_type_lists", None if find_func(ct, "set_type", "Circuit") is None else [], 0)
     except SyntaxError:
         for nm in ["primitive_gates", "addable_types", "supported_types"]:
